@@ -9,7 +9,7 @@ from . import gen
 UNI = ["a", "b", "ä", "😀", "日本", 'q"t', "a b", "c", "", "lone\udc80surrogate"]
 KINDS = ["k1", "k2", "k3"]
 FLAVOURS = ["plain_str", "str_ids", "str_hook", "obj_cb", "obj_derived", "obj_default", "typed_obj_default", "dw", "typed_str", "typed_str_ids",
-            "typed_obj", "typed_derived", "fs"]
+            "typed_obj", "typed_derived", "fs", "typed_mixed", "mixed_ids"]
 
 KEY_MAPS = {"default": True, "off": False,
             "custom": {"data_id": "i", "str": "s", "kind": "k", "type": "t", "name": "n", "age": "a"}}
@@ -222,9 +222,37 @@ def build_source(flavour, f, rng):
         save_kw["mapper"] = lambda node, data: {**data, "type": node.data.typ, "name": node.data.name}
         load_kw["mapper"] = lambda parent, data: PlainObj(data["name"], data["type"])
         load_cls = cls
+    elif flavour in ("typed_mixed", "mixed_ids"):
+        # objects and strings side by side; the mappers tag *every* dict entry (string nodes of a typed tree and string nodes
+        # with an explicit id are dict entries, too) and the load mapper insists on its tag
+        cls = TypedTree if typed else Tree
+        t = cls("src", calc_data_id=calc_cb)
+        pool = [Obj(f"nm{i}", rng.choice(["person", "dept"]), f"g{i}", None) for i in range(max(1, n // 3 + 1))]
+        pool += [f"s{i}" for i in range(max(1, n // 3 + 1))]
+        labs = gen.clone_labeling(rng, f, list(range(len(pool))))
+        if labs is None:
+            pool = [Obj(f"nm{i}", "person", f"g{i}") if i % 2 else f"s{i}" for i in range(n)]
+            labs = list(range(n))
+        gen.build(t, f, lambda i: pool[labs[i]], kind=kind,
+                  data_id=(lambda i: f"sid-{pool[labs[i]]}" if isinstance(pool[labs[i]], str) else None) if flavour == "mixed_ids" else None)
+
+        def ser_mixed(node, data):
+            ser_cb(node, data)
+            data["tag"] = "o" if isinstance(node.data, Obj) else "s"
+            return data
+
+        def deser_mixed(parent, data):
+            if data["tag"] == "o":  # KeyError if an entry was written without consulting the mapper
+                return Obj(data["name"], data["type"], data["data_id"], data.get("age"))
+            return data["str"]
+
+        save_kw["mapper"] = ser_mixed
+        load_kw["mapper"] = deser_mixed
+        load_cls = cls
     elif flavour == "dw":
         t = Tree("src")
-        dicts = [{"title": f"d{i}", "num": i} for i in range(max(1, n // 2 + 1))]
+        # wrapped dicts may contain keys that look like node attributes (`kind`, `name`): they are ordinary user keys
+        dicts = [{"title": f"d{i}", "num": i, **({"kind": "fruit", "name": f"n{i}"} if i % 2 else {})} for i in range(max(1, n // 2 + 1))]
         wrappers = [DictWrapper(d) for d in dicts]
         labs = gen.clone_labeling(rng, f, list(range(len(dicts))))
         if labs is None:
